@@ -753,6 +753,14 @@ impl<'tcx> M<'tcx> {
                 }
                 Ok(())
             }
+            ty::Slice(e) => {
+                // drop_in_place of a slice: element by element, front to back
+                let Some((stride, len)) = p.sl else { return unsup("drop of a slice without metadata") };
+                for i in 0..len {
+                    self.drop_at(&Ptr { alloc: p.alloc, path: p.path.clone(), off: p.off + i * stride, sl: None }, *e)?;
+                }
+                Ok(())
+            }
             ty::Closure(_, args) => {
                 let n = leaf_count(tcx, t);
                 let base = self.resolve(p, n)?;
